@@ -173,7 +173,7 @@ def run(rep):
         for r in range(rounds):
             d = os.path.join(root, "sites%d" % r)
             instantiate(d, rng, nrand)
-            rc, err, to = common.run_goderive(binp, d, ["./p"], timeout=300, mem_gb=8)
+            rc, err, to = common.run_goderive(binp, d, ["./p", "./pend"], timeout=300, mem_gb=8)
             rep.cov["programs"] += 1
             files = {}
             for f in ("p/r_types.go", "p/r_calls.go", "p/r_test.go"):
@@ -230,6 +230,7 @@ def iso_part(rep, binp, rng, root):
     d = os.path.join(root, "iso")
     instantiate(d, rng, 0)
     shutil.rmtree(os.path.join(d, "p"))
+    shutil.rmtree(os.path.join(d, "pend"))
     files, meta = gen_iso(rng, 160 if rep.tier == "quick" else 0)
     for rel, src in files.items():
         os.makedirs(os.path.dirname(os.path.join(d, rel)), exist_ok=True)
